@@ -95,7 +95,7 @@ func TestKnown(t *testing.T)  { ev.RunKnown(t, "C14", judges) }
 func TestReplay(t *testing.T) { ev.RunReplay(t, judges) }
 
 // dependents reports which overrides are referenced by another override's initialiser.
-func dependents(ovs []*wgen.Var) map[*wgen.Var]bool {
+func dependents(ovs []*wgen.Var, extra ...wgen.Expr) map[*wgen.Var]bool {
 	out := map[*wgen.Var]bool{}
 	var walk func(e wgen.Expr)
 	walk = func(e wgen.Expr) {
@@ -113,6 +113,9 @@ func dependents(ovs []*wgen.Var) map[*wgen.Var]bool {
 		if o.Init != nil {
 			walk(o.Init)
 		}
+	}
+	for _, e := range extra {
+		walk(e)
 	}
 	return out
 }
@@ -140,8 +143,14 @@ func drawValue(t *rapid.T, v *wgen.Var, small bool) (float64, wref.Value) {
 		x := vals[rapid.IntRange(0, n-1).Draw(t, "ovu")]
 		return float64(x), wref.U32V(uint32(x))
 	default:
-		vals := []float32{0, 1, -1, 0.5, -2.25, 16, 1024, 16777216, -0.125}
-		x := vals[rapid.IntRange(0, len(vals)-1).Draw(t, "ovf")]
+		vals := []float32{0, 1, -1, 0.5, -2.25, 16, -0.125, 1024, 16777216}
+		n := len(vals)
+		if small {
+			// derived arithmetic must stay exact in f32: naga may evaluate it in binary64 and round
+			// once, which WGSL's accuracy rules for + - * do not pin down bit-exactly
+			n = 7
+		}
+		x := vals[rapid.IntRange(0, n-1).Draw(t, "ovf")]
 		return float64(x), wref.F32V(x)
 	}
 }
@@ -171,7 +180,13 @@ func TestPropOverrides(t *testing.T) {
 			ev.Class("discard:known:override-fold-op")
 			return
 		}
-		deps := dependents(gc.Overrides)
+		var ginits []wgen.Expr
+		for _, g := range gc.Mod.Globals() {
+			if g.Kind == wgen.VPrivate && g.Init != nil {
+				ginits = append(ginits, g.Init) // arithmetic on the supplied value: keep it small
+			}
+		}
+		deps := dependents(gc.Overrides, ginits...)
 		consts := map[string]float64{}
 		bound := map[*wgen.Var]wref.Value{}
 		missing, missingUnused, fromMap, changed := false, false, 0, 0
